@@ -222,7 +222,7 @@ def body(pid, tier, seed, rep, only_prop=False, scale=1):
         nontrivial = (cmd == "geom" and int(f.get("layers", "1")) > 1) or (cmd == "pic" and int(f.get("n", "0")) > 1)
         rep.case(line, nontrivial=nontrivial, sample={"case": {"tag": meta["tag"], "kind": meta["spec"]["kind"], "n": len(meta["spec"]["data"]), "options": meta["spec"]["options"]}, "driver": ans} if nontrivial else None)
         rep.count("line=" + meta["tag"]); rep.count("dir=" + str(meta["spec"]["options"].get("direction", "default"))) if cmd in ("geom", "pic") else None
-        if f.get("model") == "fail":
+        if f.get("model") == "fail" and cmd != "layer":
             rep.model_fail = True
         if any(f.get(k) == "tie" for k in corr_keys + prop_keys):
             rep.ties += 1
